@@ -23,7 +23,7 @@ def rich_series(rnd, n, kind=None):
     """A column of a recognised type; returns (series, kind label)."""
     kinds = ['int64', 'uint8', 'Int64', 'float64', 'float_special', 'Float64', 'bool', 'boolean', 'objbool',
              'object_str', 'category', 'dt_ns', 'dt_s', 'dt_ms', 'dt_us', 'dt_tz', 'dateobj', 'int_extreme',
-             'allnull_float', 'allnull_obj', 'many_cats']
+             'allnull_float', 'allnull_obj', 'many_cats', 'longtext']
     kind = kind or rnd.choice(kinds)
     nullp = rnd.choice([0.0, 0.0, 0.2, 0.6])
 
@@ -68,6 +68,15 @@ def rich_series(rnd, n, kind=None):
                 # categories declared up front, or left behind by a filter, that no row uses
                 s = s.cat.add_categories(['unused category', 'zz9'])
         return s, kind
+    if kind == 'longtext':
+        # free text of 50+ words (rexpy gives up on the shape and describes the length), some of it over several lines
+        words = ['alpha', 'beta', 'gamma', 'delta', 'x1', 'y-2', 'z.', 'été']
+        def para(nl):
+            ws = [rnd.choice(words) for _ in range(rnd.randint(55, 70))]
+            return (' '.join(ws[:20]) + ('\n' if nl else ' ') + ' '.join(ws[20:]))
+        pool = [para(False), para(True), para(True)]
+        vals = mask([rnd.choice(pool) for _ in range(n)], None)
+        return pd.Series(vals, dtype=object), kind
     if kind == 'many_cats':
         k = rnd.randint(18, 26)
         pool = ['cat%02d' % i for i in range(k)]
@@ -83,6 +92,9 @@ def rich_series(rnd, n, kind=None):
         vals = mask([rnd.choice(base) for _ in range(n)], pd.NaT)
         if kind == 'dateobj':
             vv = [None if v is pd.NaT else v.date() for v in vals]
+            if vv and rnd.random() < 0.4:
+                # dates far outside what nanosecond timestamps can hold
+                vv[rnd.randrange(len(vv))] = rnd.choice([datetime.date(9999, 12, 31), datetime.date(1, 1, 1), datetime.date(2500, 6, 30)])
             if vv and all(v is None for v in vv):
                 vv[0] = datetime.date(2020, 1, 1)
             return pd.Series(vv, dtype=object), kind
